@@ -13,6 +13,12 @@
 (* observed event the monitor closes its state set under "some pending     *)
 (* unit takes effect now" (LinClosure).                                    *)
 (*   sub / unsub(id, topic, ok)   ok says whether the subscription changed *)
+(*   subB(id, topic) / subE(id, topic, ok)   a subscribe whose instant is   *)
+(*                                somewhere inside the call (something is  *)
+(*                                published to the topic meanwhile, e.g.   *)
+(*                                by the broker's OnSubscribe callback)    *)
+(*   settled(id, topic)           the harness has waited for the callbacks *)
+(*                                of everything accepted for (id, topic)   *)
 (*   pubB(m, topic, ids)          a publish of m to the listed ids begins  *)
 (*   pubE(m, okids)               it returned; okids = ids reported true   *)
 (*   pollE(id, res)               a poll of id returned res: topic -> msgs *)
@@ -27,7 +33,8 @@ EXTENDS Integers, Sequences, FiniteSets, TLC
 
 Key(id, topic) == id \o "|" \o topic
 
-PMInit(e) == [subs |-> {}, acc |-> <<>>, del |-> <<>>, open |-> {}, lin |-> {}]
+PMInit(e) == [subs |-> {}, acc |-> <<>>, del |-> <<>>, open |-> {}, lin |-> {}, osub |-> {}, lsub |-> {}]
+\* osub: subscribes begun that have not taken effect; lsub: <<id, topic, changed?>> taken effect, call not yet returned
 \* lin: set of <<m, id, accepted?>> units that have taken effect
 
 LinUnit(s, u) ==   \* u = <<m, id, topic>>
@@ -36,10 +43,17 @@ LinUnit(s, u) ==   \* u = <<m, id, topic>>
     THEN [s EXCEPT !.open = @ \ {u}, !.lin = @ \cup {<<u[1], u[2], TRUE>>}, !.acc[k] = Append(@, u[1])]
     ELSE [s EXCEPT !.open = @ \ {u}, !.lin = @ \cup {<<u[1], u[2], FALSE>>}]
 
+LinSub(s, p) ==    \* p = <<id, topic>>
+    LET k == Key(p[1], p[2]) IN
+    IF k \in s.subs
+    THEN [s EXCEPT !.osub = @ \ {p}, !.lsub = @ \cup {<<p[1], p[2], FALSE>>}]
+    ELSE [s EXCEPT !.osub = @ \ {p}, !.lsub = @ \cup {<<p[1], p[2], TRUE>>},
+                   !.subs = @ \cup {k}, !.acc = (k :> <<>>) @@ @, !.del = (k :> 0) @@ @]
+
 RECURSIVE LinClosure(_)
 LinClosure(S) ==
-    LET T == S \cup {LinUnit(s, u) : s \in S, u \in UNION {t.open : t \in S}} IN
-    LET T2 == S \cup UNION {{LinUnit(s, u) : u \in s.open} : s \in S} IN
+    LET T2 == S \cup UNION {{LinUnit(s, u) : u \in s.open} : s \in S}
+                 \cup UNION {{LinSub(s, p) : p \in s.osub} : s \in S} IN
     IF T2 = S THEN S ELSE LinClosure(T2)
 
 Apply(s, e) ==
@@ -55,6 +69,14 @@ Apply(s, e) ==
                                          !.acc = [x \in (DOMAIN s.acc) \ {k} |-> s.acc[x]],
                                          !.del = [x \in (DOMAIN s.del) \ {k} |-> s.del[x]]]}
                  ELSE {s}
+      [] e.ev = "subB" -> {[s EXCEPT !.osub = @ \cup {<<e.id, e.topic>>}]}
+      [] e.ev = "subE" ->
+            IF <<e.id, e.topic>> \in s.osub \/ <<e.id, e.topic, e.ok>> \notin s.lsub THEN {}
+            ELSE {[s EXCEPT !.lsub = @ \ {<<e.id, e.topic, e.ok>>}]}
+      [] e.ev = "settled" ->
+            LET k == Key(e.id, e.topic) IN
+            IF (\E u \in s.open : u[2] = e.id /\ u[3] = e.topic) THEN {}
+            ELSE IF k \in s.subs => s.del[k] = Len(s.acc[k]) THEN {s} ELSE {}
       [] e.ev = "pubB" ->
             {[s EXCEPT !.open = @ \cup {<<e.m, e.ids[i], e.topic>> : i \in DOMAIN e.ids}]}
       [] e.ev = "pubE" ->
